@@ -1,5 +1,7 @@
 import CalVerif.Lemmas.BiffSheet
 import CalVerif.Lemmas.BiffRange
+import CalVerif.Lemmas.BiffFuel
+import CalVerif.Lemmas.BiffFormulas
 /-! C02 — XLS (BIFF8): every cell record reads back at its position with its value.
 
     Property theorems about the model `Model/Biff.lean` (namespace `BiffCells`) and the encoder
@@ -7,11 +9,12 @@ import CalVerif.Lemmas.BiffRange
     which are never reasoned about. Helper lemmas: `Lemmas/Biff*.lean`.
 
     * `rk_spec`, `rkInt_roundtrip`, `rkInt100_roundtrip`, `rkFloat_roundtrip` — RK numbers
-    * `parseErr_code/_inj/_other`, `boolerr_bool`, `boolerr_error`, `boolerr_other` — BOOLERR one-to-one
+    * `boolerr_bijective` (`parseErr_code/_inj/_other`), `boolerr_bool`, `boolerr_error`, `boolerr_other` — BOOLERR one-to-one
     * `mulrk_columns`, `mulrk_rejects`, `mulrk_no_panic`, `mulrk_run` — MULRK column arithmetic (after D31)
     * `record_framing_roundtrip` — `RecordIter` over framed records
     * `formula_cached_value` — the FormulaValue shapes, string results from the next STRING record
     * `number_encodings_equal`, `biff_encoding_independent` — NUMBER / RK / MULRK / FORMULA agree numerically
+    * `sheetRange_total` — the model's loop budgets suffice on every input (no `outOfFuel`)
     * `biff_sheet_roundtrip` — the range of an encoded sheet is its bounding box with every value in place,
       for every layout (record choice, MULRK grouping, ignorable records) -/
 
@@ -90,6 +93,18 @@ theorem parseErr_other (e : Nat) (h : ∀ k, e ≠ errCode k) : parseErr e = .er
   simp [parseErr, h0, h1, h2, h3, h4, h5, h6, h7]
 
 
+
+/-- the 8 error codes and the 8 error kinds correspond one-to-one: a code decodes to a kind exactly when it is
+    that kind's code, distinct kinds have distinct codes, every other byte is rejected -/
+theorem boolerr_bijective :
+    (∀ e k, parseErr e = .ok (.error k) ↔ e = errCode k) ∧
+    (∀ k k', errCode k = errCode k' → k = k') ∧
+    (∀ e, (∀ k, e ≠ errCode k) → parseErr e = .err "Unrecognized:error") := by
+  refine ⟨fun e k => ⟨parseErr_inj e k, fun h => by rw [h]; exact parseErr_code k⟩, ?_, parseErr_other⟩
+  intro k k' h
+  have h1 := parseErr_code k
+  rw [h, parseErr_code k'] at h1
+  injection h1 with h1; injection h1 with h1; exact h1.symm
 
 /-- BOOLERR with `fError = 0`: a boolean -/
 theorem boolerr_bool (row col xf : Nat) (b : Bool) (hr : row < 65536) (hc : col < 65536) (hx : xf < 65536) :
@@ -182,6 +197,31 @@ theorem record_framing_roundtrip (rs : List Rec) (h : ∀ r ∈ rs, plainRec r) 
     items (frame rs) = rs.map .record :=
   items_frame rs h
 
+/-- whatever the bytes, the worksheet model terminates within its loop budgets: `RecordIter` consumes at least
+    four bytes per record, the CONTINUE loop as well, nothing else loops -/
+theorem sheetRange_total (env : Env) (s : Bytes) : sheetRange env s ≠ .outOfFuel := by
+  unfold sheetRange withFormulaRange rangeOf decodeSheet
+  have h := sheetLoop_ne_fuel env (items s) ⟨[], (0, 0)⟩ (items_fuel s)
+  cases hc : sheetLoop env (items s) ⟨[], (0, 0)⟩ with
+  | ok cs =>
+    simp only
+    have h1 := fromSparse_ne_fuel cs
+    cases hr : Range.fromSparse cs with
+    | ok r =>
+      simp only
+      have h2 := fromSparse_ne_fuel (formulaCells (items s))
+      cases hf : (Range.fromSparse (formulaCells (items s)) : Res (Range.Rng Nat)) with
+      | ok _ => simp
+      | err e => simp
+      | panic e => simp
+      | outOfFuel => exact absurd hf h2
+    | err e => simp
+    | panic e => simp
+    | outOfFuel => exact absurd hr h1
+  | err e => simp
+  | panic e => simp
+  | outOfFuel => exact absurd hc h
+
 /-! ### FORMULA -/
 
 /-- the value a cached result stands for (a number is typed by the cell's XF like NUMBER / RK cells) -/
@@ -260,7 +300,10 @@ theorem biff_sheet_roundtrip (env : Env) (S : List LCell) (lays : List Lay)
     exact ⟨(hok p hp).1, (hok p hp).2.1⟩
   obtain ⟨r, hr, hemp, hbox, hval, hout⟩ := Range.fromSparse_sorted _ hpw hb
   refine ⟨r, ?_, ?_, ?_, ?_, ?_⟩
-  · simp only [sheetRange, hdec, rangeOf]; exact hr
+  · obtain ⟨fr, hfr⟩ := formulaRange_ok env (plan env S lays) hok hpw
+    have hfc : formulaCells (items (substream env S lays)) = ((plan env S lays).filter isFmla).map pos3 :=
+      formulaCells_substream env (plan env S lays) hok
+    simp only [sheetRange, hdec, rangeOf, hr, withFormulaRange, hfc, hfr]
   · intro hnil; apply hemp; rw [hnil]; simp [plan]
   · intro hne
     have hne' : (plan env S lays).map (pcCell env) ≠ [] := by
@@ -293,7 +336,9 @@ theorem biff_sheet_empty (env : Env) (lays : List Lay) :
     sheetRange env (substream env [] lays) = .ok Range.empty := by
   have hdec : decodeSheet env (items (substream env [] lays)) = .ok (([] : List PC).map (pcCell env)) :=
     decode_substream env [] (by simp)
-  simp only [sheetRange, hdec, rangeOf, List.map_nil, Range.fromSparse]
+  have hfc : formulaCells (items (substream env [] lays)) = (([] : List PC).filter isFmla).map pos3 :=
+    formulaCells_substream env [] (by simp)
+  simp only [sheetRange, hdec, rangeOf, List.map_nil, Range.fromSparse, withFormulaRange, hfc, List.filter_nil]
 
 /-- the same number stored as NUMBER, as any RK word that denotes it (integer, float, ×100 variants), inside a
     MULRK run or as a cached FORMULA value reads as a numerically equal value at the same cell -/
